@@ -25,5 +25,23 @@ print("| id | breaks | confirmed (suite 50/50, demo fails with / passes without)
 print("|---|---|---|---|---|")
 for d in sorted(glob.glob(os.path.join(os.path.dirname(__file__), "..", "seeded", "*", "meta.json"))):
     m = json.load(open(d))
-    for cp, c in m.get("checks", {}).items():
-        print(f"| {m['id']} | {m['breaks_property']} | {'yes' if m.get('confirmed') else 'NO: ' + '; '.join(s['step'] for s in m['ran'] if not s['ok'])} | ./check {cp}: {'**detected**' if c['detected'] else 'MISSED'} ({c['seconds']} s) | {'; '.join('`'+s+'`' for s in c['signatures'][:2])} |")
+    conf = 'yes' if m.get('confirmed') else 'NO: ' + '; '.join(s['step'] for s in m['ran'] if not s['ok'])
+    if 'checks' in m:  # round 1
+        for cp, c in m.get("checks", {}).items():
+            print(f"| {m['id']} | {m['breaks_property']} | {conf} | ./check {cp}: {'**detected**' if c['detected'] else 'MISSED'} ({c['seconds']} s) | {'; '.join('`'+s+'`' for s in c['signatures'][:2])} |")
+    else:  # round 2: first attempt vs after hardening
+        parts = []
+        for cp, h in m.get('checks_history', {}).items():
+            fa = h.get('first_attempt'); ah = h.get('after_hardening')
+            txt = f"./check {cp}: "
+            if fa is not None:
+                txt += ('detected' if fa['detected'] else 'missed') + ' at first'
+            if ah is not None:
+                txt += (', ' if fa is not None else '') + ('**detected** after hardening' if ah['detected'] else 'still missed')
+            parts.append(txt)
+        sig = ''
+        for cp, h in m.get('checks_history', {}).items():
+            x = (h.get('after_hardening') or h.get('first_attempt'))
+            if x and x['detected'] and not sig:
+                sig = x['signatures'][:110]
+        print(f"| {m['id']} | {m['breaks_property']} | {conf} | {'; '.join(parts)} | `{sig}` |")
